@@ -39,6 +39,8 @@ val nonempty_mods : str list option -> bool
 
 val elem_at : node list -> nat -> node option
 
+val as_array : node -> node list option
+
 val or_void0 : node option -> node option
 
 val first_or_self : node -> node
